@@ -8,6 +8,7 @@ import (
 	"os"
 	"regexp"
 	"strconv"
+	"strings"
 
 	"verif/corp"
 	"verif/ref"
@@ -83,6 +84,12 @@ var reGateNum = regexp.MustCompile(`(: |\[|, |=)(\d+)`)
 // apply performs the edit in place; ok=false if it does not change the document or is not
 // applicable (e.g. -1 on zero).
 func (e cdEdit) apply(doc map[string]any) (ok bool) {
+	if strings.HasPrefix(e.Op, "both") {
+		// Path = ["fri_config", key]: the same edit on both copies plonky2 keeps of the FRI configuration
+		o1 := cdEdit{Path: []string{"config", "fri_config", e.Path[1]}, Op: e.Op[4:], Arg: e.Arg}.apply(doc)
+		o2 := cdEdit{Path: []string{"fri_params", "config", e.Path[1]}, Op: e.Op[4:], Arg: e.Arg}.apply(doc)
+		return o1 || o2
+	}
 	parent, last := navigate(doc, e.Path)
 	cur := getAt(parent, last)
 	num := func(v any) *big.Int {
@@ -194,6 +201,26 @@ func enumerateEdits(doc map[string]any, rndKI func(i int) string) []cdEdit {
 	}
 	for _, p := range [][]string{{"quotient_degree_factor"}, {"num_partial_products"}, {"num_constants"}, {"num_gate_constraints"},
 		{"config", "num_challenges"}, {"config", "num_routed_wires"}, {"config", "num_wires"}, {"fri_params", "degree_bits"}} {
+		es = append(es, cdEdit{Path: p, Op: "+1"}, cdEdit{Path: p, Op: "-1"})
+	}
+	return es
+}
+
+// friEdits lists single-constant edits of the FRI part of the description.  plonky2 stores the FRI
+// configuration twice (config.fri_config and fri_params.config, always equal); a constant is edited in
+// both copies, so that the description stays one plonky2 could have emitted.  (A description whose copies
+// disagree is not a circuit description; which copy a verifier reads is its own business, and plonky2 and
+// this repository differ there.  C20 covers the one security-relevant case, the number of query rounds.)
+func friEdits(doc map[string]any) []cdEdit {
+	var es []cdEdit
+	for _, key := range []string{"num_query_rounds", "rate_bits", "cap_height"} {
+		for _, op := range []string{"+1", "-1"} {
+			es = append(es, cdEdit{Path: []string{"fri_config", key}, Op: "both" + op})
+		}
+	}
+	ar := doc["fri_params"].(map[string]any)["reduction_arity_bits"].([]any)
+	for i := range ar {
+		p := []string{"fri_params", "reduction_arity_bits", strconv.Itoa(i)}
 		es = append(es, cdEdit{Path: p, Op: "+1"}, cdEdit{Path: p, Op: "-1"})
 	}
 	return es
